@@ -76,14 +76,16 @@ earliest one (second half of the witness). What holds is the theorem below.
 -/
 
 /-- **The lowest flagged chunk is retransmitted** (partial: see above). In every reachable established state without
-window overflow, if `c` is the lowest flagged chunk of the in-flight queue, fits the MTU (C10 proves it for every fragment)
-and the burst budget allows a first chunk, then the first retransmission packet of a gather starts with `c` —
+window overflow, if `c` is the lowest flagged chunk of the in-flight queue, is not abandoned (a chunk is never abandoned when it
+is flagged; one whose message was abandoned afterwards is skipped and left to the FORWARD-TSN: C07), fits the MTU (C10 proves it
+for every fragment) and the burst budget allows a first chunk, then the first retransmission packet of a gather starts with `c` —
 (1) whatever cwnd and rwnd are (rwnd = 0, cwnd at its minimum) when `c` is the earliest outstanding chunk, and
 (2) wherever it is in the queue when it fits `min(cwnd, rwnd)`. -/
 theorem C02_rtx_progress_partial (cfg : Cfg) (tsn peerRwnd : BitVec 32) (hc : CfgOk cfg) (ops : List Op) (orc : Oracle) (sel : List Nat)
     (pre : List Chunk) (c : Chunk) (post : List Chunk)
     (hest : (run (init cfg tsn peerRwnd) ops).established = true) (hw : (run (init cfg tsn peerRwnd) ops).wrapWin = false)
     (hq : (run (init cfg tsn peerRwnd) ops).inflight = pre ++ c :: post) (hpre : ∀ x ∈ pre, x.retransmit = false) (hcf : c.retransmit = true)
+    (hnab : (run (init cfg tsn peerRwnd) ops).abandoned c = false)
     (hfit : hdr + c.sizeInPacket cfg.useInterleaving ≤ (cfg.mtu.toNat : Int))
     (hal : (orc.allow orc.b (c.sizeInPacket cfg.useInterleaving + hdr)).1 = true)
     (hwin : pre = [] ∨ c.len ≤ min (run (init cfg tsn peerRwnd) ops).cwnd.toNat (run (init cfg tsn peerRwnd) ops).rwnd.toNat) :
@@ -105,7 +107,7 @@ theorem C02_rtx_progress_partial (cfg : Cfg) (tsn peerRwnd : BitVec 32) (hc : Cf
       · exact Or.inl ⟨h, hr⟩
       · right; omega
     · exact Or.inr h
-  obtain ⟨tl, htl⟩ := gatherRtx_lowest s orc hs pre c post hq hpre hcf hwin' (by rw [hcfg]; exact hfit) (by rw [hcfg]; exact hal)
+  obtain ⟨tl, htl⟩ := gatherRtx_lowest s orc hs pre c post hq hpre hcf hnab hwin' (by rw [hcfg]; exact hfit) (by rw [hcfg]; exact hal)
   have hg : (gather s orc sel).2.rtx = bundle s.cfg.mtu s.cfg.useInterleaving (gatherRtx s orc).2.1 [] hdr := by
     unfold gather
     simp only [hest, Bool.not_true, Bool.false_eq_true, if_false]
